@@ -475,9 +475,18 @@ pub fn spelled(depth: u32, key_len: usize, allow_dups: bool) -> impl Strategy<Va
 
 /// Spelled objects (root is an object).
 pub fn spelled_object(depth: u32, allow_dups: bool) -> impl Strategy<Value = S> {
-    (prop::collection::vec((schars(6), spelled(depth, 6, allow_dups)), 0..7), any::<u8>()).prop_map(|(mut entries, seed)| {
+    (prop::collection::vec((schars(6), spelled(depth, 6, allow_dups)), 0..7), any::<u8>(), prop::collection::vec((any::<u16>(), any::<u16>()), 0..2)).prop_map(move |(mut entries, seed, dups)| {
         let mut seen = std::collections::BTreeSet::new();
         entries.retain(|(k, _)| seen.insert(k.iter().map(|c| c.0).collect::<String>()));
+        if allow_dups && !entries.is_empty() {
+            for (a, b) in dups {
+                let src = vf_engine::pick_idx(a, entries.len());
+                let at = vf_engine::pick_idx(b, entries.len() + 1);
+                let (k, _) = entries[src].clone();
+                let k2: Vec<SChar> = k.iter().map(|(c, s)| (*c, s.wrapping_add(1))).collect();
+                entries.insert(at, (k2, S::Num((a as i64 % 100).to_string())));
+            }
+        }
         S::Obj(entries, seed)
     })
 }
